@@ -891,6 +891,9 @@ pub fn execute(sc: &RScenario, opts: &ExecOpts) -> RunReport {
         let lx2 = StubLexer::from_lexemes(edited.iter().map(|e| Lx { start: e.start, len: e.len, faulty: false, tok_id: e.tok }).collect());
         let (po, _) = real_parse_actions(b, &lx2, &prep.costs, sc.hash_seed, &ClockPolicy { tick_ns: 1, jumps: vec![] }, RecoveryKind::None);
         match po {
+            SimOutcome::Panic(msg) if msg.starts_with("HARNESS-LOOP-GUARD") && !j.p1 => {
+                j.known("C07", "C07-a-reduction-loop", "hidden-left-recursion", format!("plain parse of the repaired input: the LR driver reduced more than {ACTION_CALL_CAP} times"));
+            }
             SimOutcome::Panic(msg) => j.viol("C05", "C05-b-plain-parse-of-repaired-input", format!("parsing the repaired input panicked: {msg}")),
             SimOutcome::Ok(pr) => {
                 j.rep.probes.hit("repaired_inputs_parsed_from_scratch");
